@@ -142,6 +142,29 @@ def two_spellings(b):
     return False
 
 
+def rcpt_then_body(b):
+    """Two failures in ONE transaction at two different stages: a recipient refused by its target's AddRcpt (so the
+    pipeline has an open delivery on that target that must not count the recipient), another recipient (or the same
+    one, retried) accepted, and then a failure of the body stage: the body check refuses the message, or a target's
+    Body / BodyNonAtomic reports a failure."""
+    refused = accepted = False
+    for h in b["hist"]:
+        a = h.get("a")
+        if a == "Tgt" and h["op"] == "rcpt":
+            if h["res"] == "ok":
+                accepted = True
+            else:
+                refused = True
+        elif a == "Cmd" and h["v"] in ("RSET", "HELO", "MAIL"):
+            refused = accepted = False
+        elif a == "Cmd" and h["v"] == "DATA" and h["arg"] == "chk" and refused and accepted:
+            return True
+        elif a == "Tgt" and h["op"] in ("body", "bodyNA") and refused and accepted and (
+                h["res"] not in ("ok", "") or any(v != "ok" for v in (h.get("st") or {}).values())):
+            return True
+    return False
+
+
 def nontrivial(b):
     for s in b["hist"]:
         if s.get("a") == "Tgt" and (s.get("res") not in ("ok", "") or
@@ -524,6 +547,15 @@ def run(ctx, replay):
                                     devs=open_devs, gen=True, tail="VIEW GenViewRes\n" + GEN_TAIL, lmtps=["TRUE"],
                                     holds=["FALSE"], allowed=["HELO:", "MAIL:ok", "RCPT:ok", "DATA:ok", "RSET:", "DROP:"]))
 
+    def job_rcptbody():   # LMTP: a fault at the recipient stage AND one at the body stage of one transaction
+        # (two faults; the body stage also fails through the body check, "DATA:chk"), targets with and without
+        # PartialDelivery, the refused recipient retried (one command more than the shortest such conversation)
+        return ctx.tlc("Session", None, name="rcptbody", workers=3, timeout=900, heap="3g",
+                       cfg_text=cfg(["ra", "rb"], [1, 2] if thorough else [1], ["temp", "perm"] if not thorough else ALL_FAILS, 2,
+                                    7, devs=open_devs, gen=True, tail="VIEW GenViewRes\n" + GEN_TAIL,
+                                    lmtps=["TRUE"] if not thorough else ["TRUE", "FALSE"], holds=["FALSE"],
+                                    allowed=["HELO:", "MAIL:ok", "RCPT:ok", "DATA:ok", "DATA:chk", "DROP:"]))
+
     def job_sim(i, n, rc, nts, mf, mc):
         return ctx.tlc("Session", None, name="sim%d" % i, workers=1, timeout=1500, simulate=n, depth=150, heap="2g",
                        cfg_text=cfg(rc, nts, ALL_FAILS, mf, mc, devs=open_devs, gen=True, tail=GEN_TAIL))
@@ -545,6 +577,7 @@ def run(ctx, replay):
             f_fclass = ex.submit(job_fclass)
             f_mcenv = ex.submit(job_mcenv)
             f_alias = ex.submit(job_alias)
+            f_rb = ex.submit(job_rcptbody)
             f_env = {pl: ex.submit(job_env, pl, mc) for pl, mc in ENV_PLANS.items()}
             f_asis = {dv: ex.submit(job_asis, dv) for dv in ALL_DEVS}
             f_sim = [ex.submit(job_sim, i, *a) for i, a in enumerate(sims)]
@@ -561,6 +594,7 @@ def run(ctx, replay):
             gfc = f_fclass.result()
             rme = f_mcenv.result()
             gal = f_alias.result()
+            grb = f_rb.result()
             genv = {pl: f.result() for pl, f in f_env.items()}
         ctx.cov["env_design_states"] = rme["distinct"]
         ctx.log("TLC exhaustive (design with the environment at the limits group): %d distinct states, %.1fs" % (
@@ -615,6 +649,17 @@ def run(ctx, replay):
         behs += stratified(ctx.rng, [b for b in sp_b if not two_spellings(b)], 6000 if thorough else 1500)
         behs += vlib.sample(ctx.rng, crashy, 40 if thorough else 3)
         behs += vlib.sample(ctx.rng, [b for b in fb if not b["crash"]], 400 if thorough else 40)
+        # every history with a recipient refused by its target, another accepted and a body-stage failure in one
+        # transaction is replayed (capped); the rest of that state graph is sampled
+        if not grb["ok"]:
+            raise vlib.Infra("recipient+body fault behaviour generation failed: %s %s" % (grb["invariant"], grb["error"]))
+        rb_b = behaviours_from(grb)
+        rb_hit = [b for b in rb_b if rcpt_then_body(b)]
+        ctx.cov["rcpt_and_body_fault_behaviours"] = len(rb_hit)
+        if not rb_hit:
+            raise vlib.Infra("no behaviour with a recipient-stage and a body-stage failure in one transaction")
+        behs += stratified(ctx.rng, rb_hit, 4000 if thorough else 700)
+        behs += stratified(ctx.rng, [b for b in rb_b if not rcpt_then_body(b)], 2000 if thorough else 200)
         for gi in gs:
             if not gi["ok"]:
                 raise vlib.Infra("behaviour simulation failed: %s %s" % (gi["invariant"], gi["error"]))
@@ -674,6 +719,10 @@ def run(ctx, replay):
             al += alias_variants(b, ["dest", "destself", "src", "global"])
         for b in stratified(ctx.rng, sh_s, 200 if thorough else 20) + stratified(ctx.rng, rest, 200 if thorough else 20):
             al += alias_variants(b, [ctx.rng.choice(["dest", "destself", "src", "global"])])
+        # ... the two-stage failures with the recipients rewritten to one mailbox (the refused and the accepted
+        # recipient are then the same address for the target)
+        for b in stratified(ctx.rng, [dict(b) for b in rb_hit if b["cfg"]["nt"] == 1], 300 if thorough else 40):
+            al += alias_variants(b, ["dest", "destself", "src", "global"])
         # ... and who refuses: the recipient rej@ / the message of class "chk" is refused by a failing modifier
         # (top level, source block, destination blocks) instead of a `reject` destination / the scripted check
         def has_cmd(b, v, a):
@@ -822,7 +871,11 @@ def run(ctx, replay):
                        "pipeline variants of sampled behaviours: recipients rewritten N->1 by a real replace_rcpt in destination / "
                        "source / global scope (all LMTP histories with two recipients on one target first), the refused recipient "
                        "/ the refused message refused by a failing modifier in each scope instead of a reject directive / the "
-                       "check; de-duplicated; stratified = round-robin over protocol x "
+                       "check; (g) LMTP with two faults in one transaction at two stages: a recipient refused by its target's "
+                       "AddRcpt (optionally retried), another accepted, then the body check or the target's Body / "
+                       "BodyNonAtomic failing (<=7 commands, targets with and without PartialDelivery; quick: one target, "
+                       "all such histories up to 700; thorough: 1-2 targets, SMTP as well), also with the recipients "
+                       "rewritten to one mailbox; de-duplicated; stratified = round-robin over protocol x "
                        "mode x targets x routing x deviations x fault placement; non-trivial = "
                        "a scripted failure, an invalid/odd argument, RSET/drop/pipelining or BDAT")
     for b in behs[:3]:
